@@ -58,6 +58,7 @@ func (c12) Gen(r *sim.Rand, tier string, run uint64) *sim.Scenario {
 		sc.Cfg["sink"] = int64(sim.PickInt(r, -1, -1, 0, 0, 1, 2, 3))
 		sc.Cfg["sinkk"] = int64(r.Intn(30))
 		sc.Cfg["rc"] = int64(r.Intn(2))
+		sc.Cfg["again"] = int64(r.Intn(3) / 2) // a second RunUntil call on the same System
 	case x < 80:
 		kind := int64(1 + r.Intn(2))
 		sc.Cfg["kind"] = kind
@@ -235,7 +236,7 @@ func c12sys(sc *sim.Scenario, env *sim.Env) *sim.Violation {
 		budget = 6000
 	}
 	stepBound := int(budget) + 2
-	wdBound := (budget + 10) * 4000
+	wdBound := (budget + 10) * 8000
 	if huge {
 		stepBound = len(pre) + 2
 		wdBound = uint64(len(pre)+10) * 16 * 4000
@@ -248,8 +249,18 @@ func c12sys(sc *sim.Scenario, env *sim.Env) *sim.Violation {
 	}
 	loadSystem(smR, sc)
 	recs, refOnTarget, refPanic, refBroke := refRun(smR, target, budget, stepBound)
+	again := sc.C("again") != 0 && !huge
+	var recs2 []stepRec
+	if again && refPanic == "" {
+		// the host calls RunUntil a second time with the same target and budget: a fresh budget,
+		// nothing carried over from the first call
+		var p2 string
+		recs2, refOnTarget, p2, refBroke = refRun(smR, target, budget, stepBound)
+		refPanic = p2
+		recs = append(recs, recs2...)
+	}
 	regsR := cpuA{&smR.S.CPU}.Regs()
-	refStalled := !huge && len(recs) > int(budget)
+	refStalled := !huge && len(recs) > int(budget)*2+2
 
 	// world A: the real RunUntil, with observers
 	smA, err := NewSysMachine(env, 0, mkHole())
@@ -324,7 +335,13 @@ func c12sys(sc *sim.Scenario, env *sim.Env) *sim.Violation {
 	// instructions; 4000 yields per instruction is far above the slowest traced instruction
 	env.SetWatchdog(wdBound)
 	var ret bool
-	pA, pvA, wd := sim.RecoverWD(func() { ret = s.RunUntil(target, budget) })
+	pA, pvA, wd := sim.RecoverWD(func() {
+		ret = s.RunUntil(target, budget)
+		if again {
+			ret = s.RunUntil(target, budget)
+		}
+	})
+	st.ProbeIf(again, "rununtil_called_twice")
 	env.SetWatchdog(0)
 	regsA := cpuA{&s.CPU}.Regs()
 	st.SimCycles += regsA.AllCycles + regsR.AllCycles
@@ -350,7 +367,7 @@ func c12sys(sc *sim.Scenario, env *sim.Env) *sim.Violation {
 	if ret != (regsA.PCL() == target) {
 		return &sim.Violation{Oracle: "rununtil_result", Step: -1, Msg: fmt.Sprintf("RunUntil returned %v with PC=%06x target=%06x", ret, regsA.PCL(), target)}
 	}
-	if (start == target || budget == 0) && regsA.AllCycles != 0 {
+	if (start == target || budget == 0) && regsA.AllCycles != 0 && !again {
 		return &sim.Violation{Oracle: "rununtil_executed_at_target_or_zero_budget", Step: -1,
 			Msg: fmt.Sprintf("start=%06x target=%06x budget=%d: RunUntil executed instructions (AllCycles=%d)", start, target, budget, regsA.AllCycles)}
 	}
@@ -363,7 +380,11 @@ func c12sys(sc *sim.Scenario, env *sim.Env) *sim.Violation {
 	}
 	// each instruction was started with consumed < budget, none fetched at the target
 	var consumed uint64
+	firstCall := len(recs) - len(recs2)
 	for i, r := range recs {
+		if i == firstCall {
+			consumed = 0 // the second call starts with a fresh budget
+		}
 		if consumed >= budget {
 			return &sim.Violation{Oracle: "HARNESS_PANIC", Step: i, Msg: "reference loop broke its own definition"}
 		}
